@@ -26,8 +26,8 @@ func init() {
 			"(d) the four custom KV stores of the restored application hold the same keys and values as the original (values compared after decoding where 'absent' and 'empty' sub-messages are the same value); (e) original and restored application receive the same 10-25 further blocks and transactions and must agree per block on minted amount, every balance, every transaction result code, the custom query answers and on not panicking. " +
 			"Non-trivial: export taken with >=3 of the 4 custom stores non-empty and a burn state present. Distinct by history hash.",
 		Assumptions:   []string{"application hashes are not compared (IAVL version history legitimately differs after a restart)"},
-		Cases:         func(t string) int { return tierN(t, 40, 2500) },
-		MinNontrivial: func(t string) int { return tierN(t, 8, 500) },
+		Cases:         func(t string) int { return tierN(t, 160, 2500) },
+		MinNontrivial: func(t string) int { return tierN(t, 32, 500) },
 		Run:           runC12,
 	})
 }
